@@ -208,6 +208,8 @@ def py_len(it, x):
         return f(it, x)
     if isinstance(x, (V.SMap, SRange)):
         raise EngineError('len() of a lazy list')
+    if type(x).__name__ == 'SCharSeq':
+        return x.length()
     if isinstance(x, XStr):
         return x.length()
     if isinstance(x, SObj):
